@@ -24,6 +24,7 @@ func runC05(p *core.Prog, r *core.Report) {
 	c05MustBranch(c)
 	c05MustVerify(c)
 	c05Blame2(c)
+	c05RingPedersenUniqueness(c.ctx)
 	c12Contexts(c.ctx)
 	// the resharing sentence of the property: old shares are erased only in the final round (R04.1)
 	// and a new member cannot abort after the acknowledgements (R04.5) — shared with C04
@@ -213,6 +214,18 @@ func abortAction(in ssa.Instruction) (string, bool) {
 				}
 			}
 		}
+		// a local helper closure every path of which reports a failure (fail := func(msg string){ ch <- result{err} })
+		if g := core.Callee(x); g != nil && g.Parent() != nil && len(g.Blocks) > 0 && !abortHelperBusy[g] {
+			if core.Outermost(g) == core.Outermost(x.Parent()) && g != x.Parent() {
+				abortHelperBusy[g] = true
+				a := &abortCFG{}
+				must := a.mustAbort(g.Blocks[0])
+				delete(abortHelperBusy, g)
+				if must {
+					return "calls a local helper that reports the failure", true
+				}
+			}
+		}
 		// completion callback invoked with false
 		if _, isP := core.Strip(x.Call.Value).(*ssa.Parameter); isP || isFreeVarParam(x.Call.Value) {
 			if len(x.Call.Args) == 1 {
@@ -224,6 +237,8 @@ func abortAction(in ssa.Instruction) (string, bool) {
 	}
 	return "", false
 }
+
+var abortHelperBusy = map[*ssa.Function]bool{}
 
 // isCulpritSlotStore: a *PartyID stored into an element of a slice (not into the array backing a
 // variadic argument list).
